@@ -491,6 +491,24 @@ pub fn worker(wi: usize, wn: usize, tier: &str) {
                     viol.push((format!("C18|delivery-routes-disagree|with={name}"), json!({"engine":"seqmc","check":"C18","row":r,"deviation":name,"accepted_toml_yaml_env":o})));
                 }
             }
+            // "however the values arrive": the documented legacy spelling of the snapshot interval
+            // (persistence.snapshot_interval_inserts) set to 0 on an otherwise SAFE row disables
+            // snapshots; the configuration must not be accepted (today the loader refuses the key
+            // next to the modern one; whatever it does, it must not start without snapshots)
+            if count_reasons(r) == 0 {
+                let legacy: Vec<Setting> = vec![("persistence.snapshot_interval_inserts", json!(0))];
+                for route in ["toml", "yaml", "env"] {
+                    let acc = deliver(r, &legacy, route, &scratch.path);
+                    evals += 1;
+                    dev_evals += 1;
+                    if acc {
+                        accepted += 1;
+                        viol.push((format!("C18|accepted-unsafe|snapshots-disabled-through-the-legacy-key|via={route}"), json!({"engine":"seqmc","check":"C18","row":r,"extra_setting":"persistence.snapshot_interval_inserts = 0","route":route})));
+                    } else {
+                        rejected += 1;
+                    }
+                }
+            }
         }
     }
     vcore::par::worker_emit(&json!({"evals":evals,"accepted":accepted,"rejected":rejected,"route_disagree":route_disagree,"violations":viol.to_json(),"accepted_by_env":accepted_by_env,
